@@ -100,23 +100,64 @@ func c01RowHead(c *Ctx, rule string) {
 		return false, false
 	}
 	wildParam := w.Params[len(w.Params)-1]
+	// marker events: a single constant byte put into the head — Write([]byte{c}) / Write([]byte("c")), WriteByte(c),
+	// or append(head, c) — possibly chosen on several branches (a phi of constants): one event per constant, with the
+	// facts of the edge that chooses it
+	type markerEvent struct {
+		m  int64
+		at *ssa.BasicBlock
+	}
+	var events []markerEvent
+	addByteValue := func(v ssa.Value, at *ssa.BasicBlock) {
+		for _, leaf := range phiLeaves(v) {
+			if k, ok := constInt(leaf.V); ok {
+				blk := leaf.At
+				if blk == nil {
+					blk = at
+				}
+				events = append(events, markerEvent{k, blk})
+			}
+		}
+	}
 	for _, ci := range callInstrs(w) {
 		cc := ci.Common()
-		if !cc.IsInvoke() || cc.Method.Name() != "Write" {
-			continue
+		switch {
+		case cc.IsInvoke() && cc.Method.Name() == "Write":
+			if s, ok := evalBytes(cc.Args[0]); ok && len(s) == 1 {
+				events = append(events, markerEvent{int64(s[0]), ci.Block()})
+			}
+		case cc.IsInvoke() && cc.Method.Name() == "WriteByte":
+			addByteValue(cc.Args[0], ci.Block())
+		default:
+			if ap := isBuiltinCall(valueOfCall(ci), "append"); ap != nil && isByteSlice(ap.Type()) && len(ap.Call.Args) == 2 {
+				// append(x, c): the variadic part is a one-element array
+				if sl, ok := ap.Call.Args[1].(*ssa.Slice); ok {
+					if al, ok := sl.X.(*ssa.Alloc); ok {
+						if at, ok := al.Type().(*types.Pointer).Elem().Underlying().(*types.Array); ok && at.Len() == 1 {
+							for _, r := range *al.Referrers() {
+								if ia, ok := r.(*ssa.IndexAddr); ok {
+									for _, rr := range *ia.Referrers() {
+										if st, ok := rr.(*ssa.Store); ok && st.Addr == ssa.Value(ia) {
+											addByteValue(st.Val, ci.Block())
+										}
+									}
+								}
+							}
+						}
+					}
+				}
+			}
 		}
-		s, ok := evalBytes(cc.Args[0])
-		if !ok || len(s) != 1 {
-			continue
-		}
-		m := int64(s[0])
+	}
+	for _, ev := range events {
+		m := ev.m
 		all[m] = true
-		isWild := hasFact(ci.Block(), func(v ssa.Value, truth bool) bool { return v == ssa.Value(wildParam) && truth })
+		isWild := hasFact(ev.at, func(v ssa.Value, truth bool) bool { return v == ssa.Value(wildParam) && truth })
 		if isWild {
 			wild[m] = true
 		}
-		// located: the block also (post)dominates a Write(loc): simpler — it is in the arm where len(loc) == 2 is known and loc non-zero
-		if loc, known := lenLocFact(ci.Block()); known && loc {
+		// located: it is in the arm where len(loc) == 2 is known and loc non-zero
+		if loc, known := lenLocFact(ev.at); known && loc {
 			located[m] = true
 		}
 	}
@@ -226,75 +267,150 @@ func c01KeyLayout(c *Ctx, rule string) {
 	if k, ok := c.Obj("dnsdata", "ResourceRecordsKeyMarker").(*types.Const); ok {
 		markerVal = constant.StringVal(k.Val())
 	}
-	// the writer's first component is that value
+	// components put into the key, whatever the spelling: the marker constant (WriteString/Write of its value), the
+	// owner name through putdom / putreverseddom, the location through putloc or a Write of bytes derived from the
+	// location parameter. They are classified by the key-layout flag known at their block and ordered by dominance.
+	fV2 := c.Field("dnsdata", "Rfeatures", "UseV2Keys")
+	type comp struct {
+		kind string
+		in   ssa.Instruction
+	}
+	var comps []comp
 	wm := false
-	for _, ci := range callInstrs(mk) {
-		if sf := ci.Common().StaticCallee(); sf != nil && sf.Name() == "WriteString" {
-			if sv, ok := stringConst(ci.Common().Args[1]); ok && sv == markerVal {
-				wm = true
-			}
+	loParam := ssa.Value(nil)
+	for _, p := range mk.Params {
+		if p.Type().String() == modPath+"/dnsdata.Loc" {
+			loParam = p
 		}
 	}
-	c.Check(rule, "makedomainkey|v2-starts-with-marker-value", wm, mk.Pos(), "v2 keys start with the resource-record marker")
-	// order of helper calls per branch
-	seq := func(b *ssa.BasicBlock) []string {
-		var out []string
-		for _, in := range b.Instrs {
-			if call, ok := in.(*ssa.Call); ok {
-				if sf := call.Common().StaticCallee(); sf != nil {
-					switch sf.Name() {
-					case "putloc", "putdom", "putreverseddom", "WriteString":
-						out = append(out, sf.Name())
+	for _, ci := range callInstrs(mk) {
+		cc := ci.Common()
+		name := ""
+		var args []ssa.Value
+		if cc.IsInvoke() {
+			name, args = cc.Method.Name(), cc.Args
+		} else if sf := calleeOf(cc); sf != nil {
+			name, args = sf.Name(), cc.Args
+			if sf.Type().(*types.Signature).Recv() != nil && len(args) > 0 {
+				args = args[1:]
+			}
+		}
+		switch name {
+		case "putloc":
+			comps = append(comps, comp{"loc", ci})
+		case "putdom":
+			comps = append(comps, comp{"name", ci})
+		case "putreverseddom":
+			comps = append(comps, comp{"reversed-name", ci})
+		case "WriteString", "Write":
+			if len(args) != 1 {
+				continue
+			}
+			if sv, ok := stringConst(args[0]); ok && sv == markerVal {
+				comps = append(comps, comp{"marker", ci})
+				wm = true
+				continue
+			}
+			if sv, ok := evalBytes(args[0]); ok && sv == markerVal {
+				comps = append(comps, comp{"marker", ci})
+				wm = true
+				continue
+			}
+			if loParam != nil {
+				for v := range backSlice(args[0], nil) {
+					if v == loParam {
+						comps = append(comps, comp{"loc", ci})
+						break
 					}
 				}
 			}
 		}
+	}
+	c.Check(rule, "makedomainkey|v2-starts-with-marker-value", wm, mk.Pos(), "v2 keys start with the resource-record marker")
+	order := func(want bool) []string {
+		var sel []comp
+		for _, k := range comps {
+			is := hasFact(k.in.Block(), func(v ssa.Value, truth bool) bool { return truth == want && isFieldLoad(v, fV2) })
+			isNot := hasFact(k.in.Block(), func(v ssa.Value, truth bool) bool { return truth != want && isFieldLoad(v, fV2) })
+			if is && !isNot { // a block that knows the flag both ways (the flag tested again inside a branch on it) is unreachable
+				sel = append(sel, k)
+			}
+		}
+		// components of one layout lie on one feasible path (they share the flag's outcome): order them by reachability
+		before := func(a, b ssa.Instruction) bool { return instrReaches(a, b) && !instrReaches(b, a) }
+		sort.SliceStable(sel, func(i, j int) bool { return before(sel[i].in, sel[j].in) })
+		var out []string
+		for i, k := range sel {
+			if i > 0 && !before(sel[i-1].in, k.in) {
+				return []string{"unordered"}
+			}
+			out = append(out, k.kind)
+		}
 		return out
 	}
-	var v1, v2 []string
-	fV2 := c.Field("dnsdata", "Rfeatures", "UseV2Keys")
-	for _, b := range mk.Blocks {
-		s := seq(b)
-		if len(s) == 0 {
-			continue
-		}
-		if hasFact(b, func(v ssa.Value, truth bool) bool { return truth && isFieldLoad(v, fV2) }) {
-			v2 = s
-		} else if hasFact(b, func(v ssa.Value, truth bool) bool { return !truth && isFieldLoad(v, fV2) }) {
-			v1 = s
-		}
-	}
-	c.Check(rule, "makedomainkey|v1-order", strings.Join(v1, ",") == "putloc,putdom", mk.Pos(), fmt.Sprintf("v1 key components in order: %v", v1))
-	c.Check(rule, "makedomainkey|v2-order", strings.Join(v2, ",") == "WriteString,putreverseddom,putloc", mk.Pos(), fmt.Sprintf("v2 key components in order: %v", v2))
+	v1, v2 := order(false), order(true)
+	c.Check(rule, "makedomainkey|v1-order", strings.Join(v1, ",") == "loc,name", mk.Pos(), fmt.Sprintf("v1 key components in order: %v", v1))
+	c.Check(rule, "makedomainkey|v2-order", strings.Join(v2, ",") == "marker,reversed-name,loc", mk.Pos(), fmt.Sprintf("v2 key components in order: %v", v2))
 	// label-by-label readers: append(X derived from a LocID, name...)
 	fLocID := c.Field("db", "Location", "LocID")
 	for _, name := range []string{"(*DataReader).FindAnswer", "(*DataReader).IsAuthoritative", "(*DataReader).ForEachResourceRecord"} {
 		fn := c.Func("db", name)
 		c.Examined(fn)
 		n, ok := 0, true
+		fromLoc := func(v ssa.Value) bool {
+			for x := range backSlice(v, nil) {
+				if fa, isFA := x.(*ssa.FieldAddr); isFA && fieldOf(fa) == fLocID {
+					return true
+				}
+			}
+			return false
+		}
+		// byte-slice concatenations: append chains flattened into their pieces (append(append(make(…,0,n), a...), b...)
+		// and append(a, b...) are the same key)
+		var pieces func(v ssa.Value, depth int) []ssa.Value
+		pieces = func(v ssa.Value, depth int) []ssa.Value {
+			if depth > 6 {
+				return []ssa.Value{v}
+			}
+			if ap := isBuiltinCall(v, "append"); ap != nil && len(ap.Call.Args) == 2 {
+				return append(pieces(ap.Call.Args[0], depth+1), ap.Call.Args[1])
+			}
+			if ms, isMS := v.(*ssa.MakeSlice); isMS {
+				if k, isK := constInt(ms.Len); isK && k == 0 {
+					return nil
+				}
+			}
+			return []ssa.Value{v}
+		}
+		isBase := map[ssa.Value]bool{}
+		for _, ci := range callInstrs(fn) {
+			if ap := isBuiltinCall(valueOfCall(ci), "append"); ap != nil && len(ap.Call.Args) == 2 {
+				isBase[ap.Call.Args[0]] = true
+			}
+		}
 		for _, ci := range callInstrs(fn) {
 			ap := isBuiltinCall(valueOfCall(ci), "append")
-			if ap == nil || !isByteSlice(ap.Type()) || len(ap.Call.Args) != 2 {
+			if ap == nil || !isByteSlice(ap.Type()) || len(ap.Call.Args) != 2 || isBase[ap] {
 				continue
 			}
-			first := false
-			for v := range backSlice(ap.Call.Args[0], nil) {
-				if fa, isFA := v.(*ssa.FieldAddr); isFA && fieldOf(fa) == fLocID {
-					first = true
+			ps := pieces(ap, 0)
+			any := false
+			for _, p := range ps {
+				if fromLoc(p) {
+					any = true
 				}
 			}
-			second := false
-			for v := range backSlice(ap.Call.Args[1], nil) {
-				if fa, isFA := v.(*ssa.FieldAddr); isFA && fieldOf(fa) == fLocID {
-					second = true
-				}
-			}
-			if !first && !second {
+			if !any {
 				continue
 			}
 			n++
-			if !first || second {
+			if len(ps) < 2 || !fromLoc(ps[0]) {
 				ok = false
+			}
+			for _, p := range ps[1:] {
+				if fromLoc(p) {
+					ok = false
+				}
 			}
 		}
 		c.Check(rule, fnName(fn)+"|key=location‖name", ok && n >= 2, fn.Pos(), fmt.Sprintf("%d key constructions, each append(location, name...)", n))
